@@ -298,7 +298,8 @@ func (w *instance) startDaemon(id, byShell int, sock, db string, logStart bool) 
 	go func() {
 		defer close(a.done)
 		w.mu.Lock()
-		w.byGid[goid()] = a
+		a.gid = goid()
+		w.byGid[a.gid] = a
 		dying := w.dying
 		w.mu.Unlock()
 		close(ready)
@@ -401,6 +402,46 @@ func (w *instance) await(a *actor) (arrival, error) {
 }
 
 func (w *instance) let(a *actor) { a.release <- struct{}{} }
+
+// awaitConns waits until daemon d has PROCESSED a client's disconnect that leaves it with n registered
+// connections (no hook sits there): the goroutines its main loop started for connections (they run
+// rpc.(*Server).ServeConn and then report connDone; "created by ... in goroutine <d's>") are down to n, and
+// after that the main loop is parked in its select again. The finished connection goroutine has handed
+// its connDone to the loop before it ended, so a loop that is parked afterwards has handled it.
+// If the daemon reaches a hook instead (it left the loop), that arrival is returned.
+func (w *instance) awaitConns(d *actor, n int) (*arrival, error) {
+	deadline := time.Now().Add(patience)
+	buf := make([]byte, 4<<20)
+	head := []byte(fmt.Sprintf("goroutine %d [", d.gid))
+	creator := []byte(fmt.Sprintf(" in goroutine %d\n", d.gid))
+	fewEnough := false
+	for {
+		select {
+		case x := <-d.arrived:
+			return &x, nil
+		default:
+		}
+		all := buf[:runtime.Stack(buf, true)]
+		all = append(all, '\n')
+		if !fewEnough {
+			cnt := 0
+			for _, blk := range bytes.Split(all, []byte("\n\n")) {
+				if bytes.Contains(blk, []byte("rpc.(*Server).ServeConn")) && bytes.Contains(append(blk, '\n'), creator) {
+					cnt++
+				}
+			}
+			fewEnough = cnt <= n
+		} else if i := bytes.Index(all, head); i >= 0 && (i == 0 || all[i-1] == '\n') {
+			if bytes.HasPrefix(all[i+len(head):], []byte("select")) {
+				return nil, nil
+			}
+		}
+		if time.Now().After(deadline) {
+			return nil, fmt.Errorf("%s: no sign within %s that the disconnect was handled (connection goroutines <= %d: %v)\n%s", d.name(), patience, n, fewEnough, allStacks())
+		}
+		time.Sleep(300 * time.Microsecond)
+	}
+}
 
 // awaitQueued waits until shell a has dialled and sent its Version request and is blocked waiting for
 // the answer (no hook sits there): its goroutine is parked in rpc.(*Client).Call. If the shell reaches
